@@ -123,7 +123,8 @@ def run_case(spec, work):
         scale = rng.integers(1, 9, size=(n, 1))
         Xs = (w.Xq.astype(np.int64) * scale).astype(np.int64)
     else:
-        scale = rng.choice([0.5, 2.0, 3.0, 10.0, 0.37, 123.456],
+        scale = rng.choice([0.5, 2.0, 3.0, 10.0, 0.37, 123.456, 1e-3,
+                            1e-6, 1e-9, 1e6],
                            size=(n, 1))
         Xs = w.Xq * scale
     ws = mapworld.derive_world(w, 'scaled', Xq=Xs, ta_updates=ta1)
